@@ -47,6 +47,7 @@ fn run_val(v: &Val, prefill: &[u8]) -> (W, W, W, Result<Vec<u8>, String>) {
         Val::Bytes(_) => write_with(bytes.as_slice(), prefill),
         Val::Addr(a) => write_with(&to_addresses(a), prefill),
         Val::TlvStruct(k, _) => write_with(&v2::TypeLengthValue::new(*k, bytes.as_slice()), prefill),
+        Val::TlvOwned(k, _) => write_with(&v2::TypeLengthValue::new(*k, bytes.as_slice()).to_owned(), prefill),
         Val::TlvTuple(k, _) => write_with(&(*k, bytes.as_slice()), prefill),
         Val::TlvTupleType(t, _) => write_with(&(TYPES[*t], bytes.as_slice()), prefill),
         Val::Section(_) => write_with(&v2::TypeLengthValues::from(bytes.as_slice()), prefill),
@@ -167,9 +168,10 @@ fn gen(stream_name: &str, idx: u64, rng: &mut Rng) -> (Val, Blob) {
             let k = (idx % 256) as u8;
             let l = [0usize, 1, 255, 256, 65535, 65536][((idx / 256) % 6) as usize];
             let b = Blob::new(rng.next() >> 16, l);
-            match (idx / (256 * 6)) % 3 {
+            match (idx / (256 * 6)) % 4 {
                 0 => Val::TlvStruct(k, b),
                 1 => Val::TlvTuple(k, b),
+                2 => Val::TlvOwned(k, b),
                 _ => Val::TlvTupleType((k % 12) as usize, b),
             }
         }
@@ -200,7 +202,7 @@ impl Monitor for C20 {
     fn streams(&self, tier: Tier) -> Vec<StreamSpec> {
         vec![
             exhaustive("c20-ints", 12 * 8 * tier.n(1, 4, 40)),
-            exhaustive("c20-tlv-types", if tier == Tier::Miri { 64 } else { 256 * 6 * 3 }),
+            exhaustive("c20-tlv-types", if tier == Tier::Miri { 64 } else { 256 * 6 * 4 }),
             exhaustive("c20-slices", if tier == Tier::Miri { 6 } else { 72 * tier.n(1, 1, 10) }),
             stream("c20-rand", tier.n(60, 300_000, 30_000_000)),
         ]
